@@ -896,13 +896,16 @@ def natural_sweep(ctx, path, max_records, max_modules):
 # (D) prepare_output_directory
 # --------------------------------------------------------------------------------------------
 
-D_ELEMENTS = ["log", "json", "region", "file", "dir", "html", "hidden", "nearmiss", "inputlike"]
+D_ELEMENTS = ["log", "json", "region", "file", "dir", "html", "hidden", "nearmiss", "inputlike", "logprefix", "logsdir"]
 D_DESIGN_ELEMENTS = ["log", "json", "region", "file", "dir", "html"]
 D_INPUT = ["absent", "dir", "file"]
 # reuse-sibling: the reused results lie in a directory whose path merely starts with the output directory's path
-D_MODES = ["fresh", "reuse-inside", "reuse-elsewhere", "reuse-sibling"]
-ELSEWHERE_MODES = ("reuse-elsewhere", "reuse-sibling")
-D_LOGCFG = ["unset", "inside", "outside"]
+# reuse-nested: the reused results lie in a sub-directory of the output directory (that sub-directory is then 'the
+# results being reused'; anything else in the output directory is still foreign)
+D_MODES = ["fresh", "reuse-inside", "reuse-elsewhere", "reuse-sibling", "reuse-nested"]
+ELSEWHERE_MODES = ("reuse-elsewhere", "reuse-sibling", "reuse-nested")
+# nested: the log file lies in a sub-directory of the output directory that also holds other files (element logsdir)
+D_LOGCFG = ["unset", "inside", "outside", "nested"]
 REGION_PATTERN = "*.region???.gbk"
 
 D_FILES = {
@@ -915,6 +918,8 @@ D_FILES = {
     "html": {"index.html": b"<html>old results</html>"},
     "hidden": {".hidden": b"hidden but precious"},
     "inputlike": {"raw_input/reads.gbk": b"not antiSMASH's input copy"},     # materialised from D_POOL_DIRS["raw_input"]
+    "logprefix": {"run": b"a file whose name is the beginning of the log file's name"},
+    "logsdir": {"logs/run.log": b"INFO log\n", "logs/other.txt": b"unrelated"},   # materialised from D_POOL_DIRS["logs"]
     "nearmiss": {"in.region0001.gbk": b"four digits", "in.region01.gbk": b"two digits",
                  "in.region001.gbk.bak": b"backup"},
 }
@@ -949,6 +954,8 @@ D_POOL_DIRS = {
     "input": {"in.gbk": b"LOCUS input copy\n//\n"},
     "stray": {"keep.txt": b"keep me", "in.region001.gbk": b"nested region file", "input/nested.gbk": b"nested input"},
     "raw_input": {"reads.gbk": b"not antiSMASH's input copy"},
+    "logs": {"run.log": b"INFO log\n", "other.txt": b"unrelated"},
+    "previous": {"prev.json": b'{"version": "nested"}', "prev.region001.gbk": b"the nested run's region"},
 }
 D_STATIC = {"src/in.gbk": b"LOCUS input\n//\n", "elsewhere/prev.json": b'{"version": "elsewhere"}',
             "elsewhere/prev.region001.gbk": b"another run's region", "logs/run.log": b"outside log\n",
@@ -1008,7 +1015,8 @@ def run_dir_case(ctx, sandbox, case, main_module, config_module):
     input_file = {"fresh": os.path.join(sandbox, "src", "in.gbk"),
                   "reuse-inside": os.path.join(outdir, "in.json"),
                   "reuse-elsewhere": os.path.join(sandbox, "elsewhere", "prev.json"),
-                  "reuse-sibling": outdir + "_old" + os.sep + "prev.json"}[mode]
+                  "reuse-sibling": outdir + "_old" + os.sep + "prev.json",
+                  "reuse-nested": os.path.join(outdir, "previous", "prev.json")}[mode]
     state = case["path_state"]
     try:
         _run_dir_case(ctx, sandbox, case, main_module, config_module, neutral, outdir, input_file, state)
@@ -1028,8 +1036,13 @@ def _run_dir_case(ctx, sandbox, case, main_module, config_module, neutral, outdi
             if element == "inputlike":
                 os.rename(os.path.join(sandbox, "pool", "raw_input"), os.path.join(outdir, "raw_input"))
                 continue
+            if element == "logsdir":
+                os.rename(os.path.join(sandbox, "pool", "logs"), os.path.join(outdir, "logs"))
+                continue
             for rel, content in D_FILES[element].items():
                 _put(os.path.join(outdir, rel), content, parents=False)
+        if mode == "reuse-nested":
+            os.rename(os.path.join(sandbox, "pool", "previous"), os.path.join(outdir, "previous"))
         if case["input"] == "dir":
             os.rename(os.path.join(sandbox, "pool", "input"), os.path.join(outdir, "input"))
         elif case["input"] == "file":
@@ -1040,7 +1053,8 @@ def _run_dir_case(ctx, sandbox, case, main_module, config_module, neutral, outdi
         if state == "file":
             _put(outdir, b"a file where the directory should be", parents=False)
     logfile = {"unset": "", "inside": os.path.join(outdir, "run.log"),
-               "outside": os.path.join(sandbox, "logs", "run.log")}[case["logcfg"]]
+               "outside": os.path.join(sandbox, "logs", "run.log"),
+               "nested": os.path.join(outdir, "logs", "run.log")}[case["logcfg"]]
     cwd = os.path.join(outdir, "stray") if case["cwd"] == "in-stray" else neutral
     config_module.update_config({"logfile": logfile, "output_basename": "", "output_dir": ""})
 
@@ -1051,6 +1065,8 @@ def _run_dir_case(ctx, sandbox, case, main_module, config_module, neutral, outdi
         own.add("input")
     if logfile and os.path.dirname(logfile) == outdir and os.path.basename(logfile) in top:
         own.add(os.path.basename(logfile))
+    if mode == "reuse-nested" and state == "exists":
+        own.add("previous")
     foreign = [entry for entry in top if entry not in own]
     hidden = [entry for entry in foreign if entry.startswith(".")]
     cwd_entries = [entry for entry in foreign if not logfile and os.path.join(outdir, entry) == cwd]
@@ -1156,6 +1172,12 @@ def dir_cases(elements_universe, full):
                     continue    # quick tier: a file merely called 'input' next to <= 2 other elements
                 for mode in D_MODES:
                     for logcfg in D_LOGCFG:
+                        if ("logsdir" in subset) != (logcfg == "nested"):
+                            continue    # the log directory element and the nested log file go together
+                        if "logprefix" in subset and logcfg not in ("inside", "unset"):
+                            continue
+                        if not full and mode == "reuse-nested" and (len(subset) > 2 or logcfg != "unset"):
+                            continue
                         if not full and logcfg == "outside" and "log" not in subset:
                             continue
                         if not full and mode == "reuse-sibling" and (len(subset) > 2 or logcfg != "unset"):
